@@ -38,6 +38,8 @@ var c01Lines = []string{
 	"peer fe80::1 up", "mc ff02::2", "fd00::5 and 10.0.0.1", "cafe::1",
 	// long lines: the needle only at the very end, beyond 1 KiB; a long logfmt record
 	strings.Repeat("x", 1100) + "ab", strings.Repeat("pad=1 ", 180) + "x=7 y=b",
+	// number texts that another number syntax reads differently (octal-looking, base prefix): decimal 10, and not a number
+	`x=010 y=a`, `x=0x10 y=b`,
 }
 
 // c01Records: every line once, unique timestamps, stream labels cycling through app in {x,y} x env in {p,absent}.
@@ -139,6 +141,7 @@ func c01Stages() []refmodel.Stage {
 		pb("or", pn("d", ">", "duration", "1s"), ps("y", "=", "a")),
 		pb("or", ps("y", "=", "a"), pn("sz", ">", "bytes", "1KB")),
 		pip("ip", "==", "10.0.0.9/24"), pip("ip", "!=", "10.0.0.200/24"),
+		pn("x", ">=", "number", "9"), pn("x", "==", "number", "8"),
 	} {
 		a = append(a, lab(p))
 	}
